@@ -15,9 +15,11 @@ def G(label, props, f):
 def std(s, kinds=("H",)):
     """UInv in, UInv on every exit; Fresh in, Fresh on every exit."""
     s.req("UInv", lambda c, A: UInv(c, A.S0), ("C01",))
-    s.req("Fresh", lambda c, A: Fresh(c, A.S0), ("C04",))
+    # Fresh is part of the inductive invariant C01 needs: an automatic id equal to an existing one
+    # would overwrite that edge's member set while its members still list it
+    s.req("Fresh", lambda c, A: Fresh(c, A.S0), ("C01", "C04"))
     s.ens_all("UInv", ("C01",), lambda c, A, R: UInv(c, R.S))
-    s.ens_all("Fresh", ("C04",), lambda c, A, R: Fresh(c, R.S))
+    s.ens_all("Fresh", ("C01", "C04"), lambda c, A, R: Fresh(c, R.S))
     return s
 
 
@@ -49,7 +51,7 @@ def _add_edge_loop(c, A, K):
                                z3.Implies(auto, u == c.of_int(S0.uid)), z3.Implies(z3.Not(auto), u == A.idx.term))),
         G("struct", ("C01",), z3.And(
             two_way(c, S), S.nk == S.nak, S.eak == S0.eak, S.ek == c.add(S0.ek, u), z3.Not(sel(S.nk, c.NONE)))),
-        G("counter", ("C04",), S.uid == z3.If(auto, S0.uid + 1, S0.uid)),
+        G("counter", ("C01", "C04"), S.uid == z3.If(auto, S0.uid + 1, S0.uid)),
         G("kept", ("C04",), z3.And(
             c.forall(["id"], lambda e: z3.Implies(sel(S0.ek, e), z3.And(sel(S.E, e) == sel(S0.E, e)))),
             c.forall(["id"], lambda e: z3.Implies(sel(S0.eak, e), z3.And(sel(S.EAh, e) == sel(S0.EAh, e), sel(S.EAv, e) == sel(S0.EAv, e)))))),
@@ -288,7 +290,7 @@ def _rnf_inv(c, A, K):
 
 def frozen_exc(s):
     """A frozen instance shadows its direct mutators: a method that calls one of them raises XGIError."""
-    s.exc("XGIError", "only-when-frozen", ("C18",), lambda c, A, R: A.S0.shadow != c.EMPTY)
+    s.exc("XGIError", "only-when-frozen", ("C18",), lambda c, A, R: A.S0.shadow.any())
     return s
 
 
